@@ -68,8 +68,7 @@ def effect (c : Cfg) (e : Ev) (l : Local) (s : State) : Local × State :=
     | none => (l, s)
   | .act .updCompound, .confirm _ _ _ =>
     match l.cand.bind fun p => withAffix p.2.chain with
-    | some (word, reading) =>
-      ({ l with entry := some ⟨word, reading, .noun .common⟩ }, { s with userDict := s.userDict ++ [⟨word, reading, .noun .common⟩] })
+    | some (word, reading) => ({ l with entry := some ⟨word, reading, .noun .common⟩ }, s)
     | none => (l, s)
   | .send .entry, .confirm _ _ _ =>
     match l.entry with
